@@ -33,7 +33,11 @@ func (reg *ResourceRegistry) ScanStorage(root string) error {
 		if err != nil {
 			return err
 		}
-		if !strings.HasPrefix(root, reg.storageDir.Path) {
+		scope := reg.storageDir.Path
+		if !strings.HasSuffix(scope, string(filepath.Separator)) {
+			scope += string(filepath.Separator)
+		}
+		if root != reg.storageDir.Path && !strings.HasPrefix(root, scope) {
 			return errors.New("supplied scan root path not within storage")
 		}
 	}
